@@ -90,6 +90,11 @@ CHECKS = {
    note="Trusted: level-A stubs; unique items/paths so that deliveries are attributable; proxy run with PerfectFD (the property's hypothesis) rather than the PracticalFD the shipped spec instantiates; the spec's StateSanity is not used as written (it sums a set of views and is falsified by the spec's own behaviours): per-key parity is checked instead; gcounter termination is not demanded (a finished node closes its CRDT resource). replicatedkv has neither spec nor test in the tree and is not exercised.",
    technique="deterministic simulation: seeded spec-step interleavings and crash points (level A) and seeded goroutine schedules over real 2PC/CRDT resources on a simulated network (level U); invariant and history oracles; shrunk replay files",
    ref="6 (C16)"),
+ "C18": dict(
+   text="Seeded search over 2-4 communicating archetypes on the real runtime with tracing and vector clocks enabled (PGO_TRACE_DIR), over real Go-channel resources, TCP mailboxes on the simulated network and LocalShared variables, each with scalar and function-valued locals; drawn programs with chained assignments, indexed writes, sends followed by receives in one section, attempts aborting at drawn positions, read and lock time-outs. The harness's own account of every attempt (operations performed through the interface; outcome from a spy resource's Commit/Abort) is compared with the trace taken from the in-memory recorder or parsed from the runtime's JSON log files: one event per attempt in program order with the right outcome, exactly the performed reads/writes with indices and values, previous-value hints of locals, replay of committed logged writes reproduces every logged read of local state, own clock component = event ordinal, clocks never go back, and every attempt that read a value sent/written by another attempt carries a clock dominating that attempt's logged clock. One recorded known finding: values carry the clock of the write statement, so what the writer learns later in the same attempt is missing at the reader (mailboxes, shared variables); channel links (OutputChan re-stamps at commit) are judged strictly, as is every clock component the writer already had when it wrote.",
+   note="Trusted: overlay instrumentation R1-R7; harness-built jump tables call the interface as generated code does; calm network (no mailbox reconnects); links from lower to higher ids.",
+   technique="deterministic simulation: seeded programs, abort positions and goroutine schedules over the overlay-instrumented runtime with tracing on; history oracle comparing the recorded trace (recorder and JSON files) with the harness's account, replay and vector-clock dominance checks; shrunk replay files",
+   ref="6 (C18)"),
 }
 PENDING = "check not built yet in this session (planned, see DESIGN.md section 6); not claimed until its harness passes the determinism self-test"
 
